@@ -203,4 +203,38 @@ package ir
 //@   tags C13
 //@   ghostcall traceStatementsForRefs visitedBlock
 //@   traverse stepmark 1 stmts Block visitedBlock($)
-//@   loop 2 invariant [cases] forall j int :: 0 <= j && j <= rangeindex ==> visitedBlock(s.Cases[j].Body)
+//
+// ---- statement-tree walkers descend into every nested block -------------------------------
+// (type-derived: for the statement handled by one iteration every field of type
+// Block of every statement kind is passed to the recursive call; see ir/zz_verif_contracts.go)
+//
+//@ func remapStmtFuncHandles
+//@   mode bv
+//@   tags C13
+//@   ghostcall remapStmtFuncHandles visitedBlock
+//@   traverse stepmark 1 stmts Block visitedBlock($)
+//
+//@ func markStmtExprRefs
+//@   mode bv
+//@   tags C13 C09
+//@   ghostcall markStmtExprRefs visitedBlock
+//@   traverse stepmark 1 stmts Block visitedBlock($)
+//
+//@ func markStmtExprRefsForCompact
+//@   mode bv
+//@   tags C13 C09
+//@   ghostcall markStmtExprRefsForCompact visitedBlock
+//@   traverse stepmark 1 stmts Block visitedBlock($)
+//
+//@ func remapStmtExprHandles
+//@   mode bv
+//@   tags C13 C09
+//@   ghostcall remapStmtExprHandles visitedBlock
+//@   traverse stepmark 1 stmts Block visitedBlock($)
+//
+//@ func remapBlockHandles
+//@   mode bv
+//@   tags C13 C14
+//@   ghostcall remapBlockHandles visitedBlock
+//@   traverse stepmark 1 block Block visitedBlock($)
+//
